@@ -146,10 +146,12 @@ theorem pushDefaultK_small : ∀ (b : B) (k : Nat) (b' : B), pushDefaultK b k = 
   | .union p .nil types offs cur, k, b', h => by simp [ViewSmall, ViewSmallL]
   | .union p (.cons c m rest) types offs cur, k, b', h => by
     simp only [pushDefaultK, ctx_ok] at h
-    obtain ⟨c', h1, h2⟩ := (bind_ok _ _ _).1 h
-    cases h2
-    simp only [ViewSmall, ViewSmallL]
-    exact fun hs => ⟨pushDefaultK_small c k c' h1 hs.1, hs.2⟩
+    split at h
+    · simp [fail] at h
+    · obtain ⟨fs', h1, h2⟩ := (bind_ok _ _ _).1 h
+      cases h2
+      simp only [ViewSmall]
+      exact pushDefaultKAt_small _ _ k fs' h1
 theorem pushDefaultKAll_small : ∀ (fs : BL) (k : Nat) (fs' : BL), pushDefaultKAll fs k = .ok fs' →
     ViewSmallL fs' → ViewSmallL fs
   | .nil, k, fs', h => by simp [ViewSmallL]
@@ -160,6 +162,21 @@ theorem pushDefaultKAll_small : ∀ (fs : BL) (k : Nat) (fs' : BL), pushDefaultK
     cases h4
     simp only [ViewSmallL]
     exact fun hs => ⟨pushDefaultK_small b k b' h1 hs.1, pushDefaultKAll_small rest k r' h3 hs.2⟩
+theorem pushDefaultKAt_small : ∀ (fs : BL) (j k : Nat) (fs' : BL), pushDefaultKAt fs j k = .ok fs' →
+    ViewSmallL fs' → ViewSmallL fs
+  | .nil, _, _, fs', h => by simp [ViewSmallL]
+  | .cons b m rest, 0, k, fs', h => by
+    simp only [pushDefaultKAt] at h
+    obtain ⟨b', h1, h2⟩ := (bind_ok _ _ _).1 h
+    cases h2
+    simp only [ViewSmallL]
+    exact fun hs => ⟨pushDefaultK_small b k b' h1 hs.1, hs.2⟩
+  | .cons b m rest, j + 1, k, fs', h => by
+    simp only [pushDefaultKAt] at h
+    obtain ⟨r', h1, h2⟩ := (bind_ok _ _ _).1 h
+    cases h2
+    simp only [ViewSmallL]
+    exact fun hs => ⟨hs.1, pushDefaultKAt_small rest j k r' h1 hs.2⟩
 end
 
 theorem pushNone_small : ∀ (b : B) (b' : B), pushNone b = .ok b' → ViewSmall b' → ViewSmall b
@@ -201,6 +218,8 @@ theorem pushNone_small : ∀ (b : B) (b' : B), pushNone b = .ok b' → ViewSmall
     exact pushDefaultKAll_small fs 1 fs' h3
   | .dictionary p idx vals index, b', h => by
     simp only [pushNone, ctx_ok] at h
+    split at h
+    · simp [fail] at h
     obtain ⟨idx', h1, h2⟩ := (bind_ok _ _ _).1 h
     cases h2
     simp only [ViewSmall]
@@ -545,7 +564,10 @@ theorem push_small (ext : Ext) : ∀ (x : SVal) (b b' : B), push ext b x = .ok b
   | .f64 x, b, b', h => by rw [push, ctx_ok] at h; exact pushScalar_small ext _ _ b' h
   | .char x, b, b', h => by rw [push, ctx_ok] at h; exact pushScalar_small ext _ _ b' h
   | .str x, b, b', h => by rw [push, ctx_ok] at h; exact pushScalar_small ext _ _ b' h
-  | .unitStruct x, b, b', h => by rw [push, ctx_ok] at h; exact pushScalar_small ext _ _ b' h
+  | .unitStruct x, b, b', h => by
+    cases b with
+    | unknownVariant p => simp [push, ctx_ok, fail] at h
+    | _ => simp only [push] at h; exact pushNone_small _ b' h
 
 theorem pushElems_small (ext : Ext) : ∀ (xs : SVals) (large : Bool) (el : B) (offs : List Int) (r : B × List Int),
     pushElems ext large el offs xs = .ok r → ViewSmall r.1 → ViewSmall el
